@@ -477,6 +477,23 @@ Proof. reflexivity. Qed.
 Lemma third_f_range : 0 <= third_f /\ third_f < 1.
 Proof. unfold third_f. split; [discriminate|reflexivity]. Qed.
 
+(* third_f IS fl(1/3), the float64 nearest to 1/3: it is a 53-bit significand times 2^-54 (the
+   float64 numbers in [1/4, 1/2) are exactly the multiples m * 2^-54 with 2^52 <= m < 2^53), it is
+   the value of the bit pattern 0x3FD5555555555555, and NO multiple of 2^-54 is closer to 1/3
+   (2^54 = 1 mod 3, so |1/3 - m 2^-54| = |2^54 - 3 m| / (3 2^54) >= 1 / (3 2^54) for every integer m).
+   Together with hf_const_close below (which holds for EVERY sample size N and every q) this is
+   the whole content of "the code's 1/3.0 versus the textbook 1/3". *)
+Lemma third_f_float : third_f == inject_Z 6004799503160661 / inject_Z (2 ^ 54) /\ (2 ^ 52 <= 6004799503160661 < 2 ^ 53)%Z.
+Proof. split; [vm_compute; reflexivity|vm_compute; split; [discriminate|reflexivity]]. Qed.
+Lemma third_f_bits : decode_bits 0x3FD5555555555555 = XFin third_f.
+Proof. vm_compute. reflexivity. Qed.
+Lemma third_f_nearest : forall m : Z, (1 # 3) - third_f <= Qabs ((1 # 3) - inject_Z m / inject_Z (2 ^ 54)).
+Proof.
+  intro m. rewrite third_f_close. change (2 ^ 54)%Z with 18014398509481984%Z.
+  change (2 ^ 54)%positive with 18014398509481984%positive.
+  apply Qabs_case; intro H; revert H; unfold Qle, Qdiv, Qmult, Qminus, Qplus, Qopp, Qinv, inject_Z, Qnum, Qden; lia.
+Qed.
+
 (* the code's constant moves the result by at most (1+q) * 2^-54/3 * (max - min) *)
 Lemma hf_const_close : forall xs q, xs <> [] ->
   Qabs (hf_def third_f xs q - hf8_def xs q) <=
